@@ -3,6 +3,7 @@ package server
 import (
 	"context"
 	"fmt"
+	"math"
 	"math/rand"
 	"path/filepath"
 	"strconv"
@@ -1963,6 +1964,18 @@ func getMessage(data []byte) *client.Message {
 	msg, err := proto.UnmarshalPublish(data)
 	if err != nil {
 		return nil
+	}
+	// The commit log stores the length of a header key and the number of
+	// headers (these plus subject and reply) in 16 bits. A payload that
+	// exceeds this cannot be stored as the message it encodes, so it is
+	// stored as it is.
+	if len(msg.Headers) > math.MaxUint16-2 {
+		return nil
+	}
+	for key := range msg.Headers {
+		if len(key) > math.MaxInt16 {
+			return nil
+		}
 	}
 	return msg
 }
